@@ -370,3 +370,29 @@ def rule_setup(ctx, R, fi):
                "results of every monitored table are written" if not skips else
                f"`{norm(skips[0].test, 70)}` skips tables without an outage in the case list: their elements are monitored (and can be the most "
                "loaded ones) but get no result columns", fi.loc(skips[0]) if skips else fi.loc(wr))
+
+
+def rule_dup_keyword(ctx, R, fi):
+    """a call `f(..., K=x, **kwargs)` raises TypeError when kwargs still holds K: an option that the function reads with
+    kwargs.get("K") / kwargs["K"] (and does not pop or delete) may not be passed again as an explicit keyword next to **kwargs"""
+    fn = fi.node
+    kept, removed = set(), set()
+    for c in ast.walk(fn):
+        if isinstance(c, ast.Call) and isinstance(c.func, ast.Attribute) and ast.unparse(c.func.value) == "kwargs" and c.args \
+                and isinstance(c.args[0], ast.Constant) and isinstance(c.args[0].value, str):
+            (removed if c.func.attr == "pop" else kept if c.func.attr == "get" else set()).add(c.args[0].value)
+        if isinstance(c, ast.Subscript) and ast.unparse(c.value) == "kwargs" and isinstance(c.slice, ast.Constant):
+            (removed if isinstance(c.ctx, ast.Del) else kept).add(c.slice.value)
+    maybe = kept - removed
+    n = 0
+    for c in ast.walk(fn):
+        if not (isinstance(c, ast.Call) and any(k.arg is None and ast.unparse(k.value) == "kwargs" for k in c.keywords)):
+            continue
+        n += 1
+        dup = sorted(k.arg for k in c.keywords if k.arg in maybe)
+        ctx.ob(R, f"{fi.module.name}::{fi.qualname}::dup-keyword@{norm(c.func, 40)}#{n}", not dup,
+               f"`{norm(c.func, 40)}(..., **kwargs)` passes no option twice" if not dup else
+               f"`{norm(c.func, 40)}(..., {dup[0]}={dup[0]}, **kwargs)`: {dup} is read with kwargs.get and stays in kwargs, so the call "
+               f"raises TypeError (multiple values for keyword argument) whenever the caller passes {dup[0]}; the other execution path "
+               "accepts the option", fi.loc(c))
+    return n
